@@ -4,6 +4,7 @@ use crate::framework::{Engine, Tier};
 use crate::progs::*;
 use crate::rng::Rng;
 use cao_lang::prelude::*;
+use cao_lang::compiler::Card;
 
 fn hexb(b: &[u8]) -> String {
     b.iter().map(|x| format!("{x:02x}")).collect()
@@ -52,6 +53,20 @@ pub fn show_cerr(e: &CompilationError) -> String {
     )
 }
 
+/// globals whose first appearance is nested inside the value of another new global, or only in
+/// a function compiled later
+pub fn add_nested_globals(m: &mut cao_lang::compiler::Module, rng: &mut Rng) {
+    if let Some((_, f)) = m.functions.iter_mut().find(|(n, _)| n == "main") {
+        let k = rng.range(0, 99);
+        f.cards.insert(0, Card::set_global_var(format!("ga{k}"), crate::progs::read(&format!("gb{k}"))));
+        f.cards.push(Card::set_global_var(format!("gc{k}"), Card::set_global_var(format!("gd{k}"), crate::progs::int(1))));
+    }
+    if let Some((_, f)) = m.functions.last_mut() {
+        let k = rng.range(100, 199);
+        f.cards.push(Card::set_global_var(format!("gb{k}"), crate::progs::read(&format!("ge{k}"))));
+    }
+}
+
 /// Engine `wf`: the Lean well-formedness checker applied to the bytes the REAL compiler emitted
 /// (compiled while the case is generated), independent of the compiler model.
 pub struct WfEngine;
@@ -63,7 +78,10 @@ impl Engine for WfEngine {
     fn gen(&self, rng: &mut Rng, tier: Tier, idx: usize) -> Vec<String> {
         for _ in 0..20 {
             let size = if tier == Tier::Quick { rng.range(1, 6) } else { rng.range(1, 10) } as usize;
-            let m = gen_program(rng, &GenOpts { size, with_submodules: idx % 2 == 0 });
+            let mut m = gen_program(rng, &GenOpts { size, with_submodules: idx % 2 == 0 });
+            if idx % 3 == 1 {
+                add_nested_globals(&mut m, rng);
+            }
             if let Ok(p) = compile(m, None) {
                 return vec![format!("cmp wfprog {}", show_program(&p))];
             }
@@ -98,6 +116,10 @@ impl Engine for CmpEngine {
             let size = if tier == Tier::Quick { rng.range(1, 6) } else { rng.range(1, 10) } as usize;
             gen_program(rng, &GenOpts { size, with_submodules: idx % 2 == 0 })
         };
+        let mut m = m;
+        if idx % 3 == 1 {
+            add_nested_globals(&mut m, rng);
+        }
         let t = module_tok(&m);
         vec![format!("cmp compile {t}"), format!("cmp wf {t}")]
     }
